@@ -30,3 +30,5 @@ def jobs(unit, tier, only=None):
 
 replay = fs.replay
 replay_record = fs.replay_record
+
+evidence_info = fs.evidence_info
